@@ -1,3 +1,200 @@
 import TlsModel.Proto
-/- driver stub for C04: replaced when the model exists -/
-def main : IO Unit := Tls.protoMain (fun _ => none)
+import TlsModel.Transcript
+/-
+  Driver for C04 (one request line, one reply line; hex for bytes, `-` = empty).
+
+    tail  smaj smin vmaj vmin rnd8                    -> hex of serverRandomTail
+    sent  cmaj cmin vmaj vmin tail                    -> proceed | abort:illegal_parameter
+    selver minmaj minmin smaj smin chmaj chmin sversions ext -> ok M N | err:protocol_version
+             (version lists `3.4,3.3`; ext `none` when the extension is absent, `-` when empty)
+    scsv  smaj smin vmaj vmin suites                  -> proceed | abort:inappropriate_fallback
+    wire  suites flag                                 -> suites on the wire
+    offer cmaj cmin cversions                         -> M N ext
+    realver chmaj chmin ext                           -> M N
+    script flow opts                                  -> events in wire order (C:1 S:2 ccsS finC restart …)
+    shape flow opts                                   -> handshake types hashed, in order, at completion
+    detector flow opts i                              -> client | server | client,server | none
+    run side flow opts htable cfin sfin produce input -> ok <transcript> <pre> | abort:<why>
+             htable  in:out;…  (digest oracle for message_hash, computed by the harness with hashlib)
+             cfin/sfin       verify_data of the two Finished as captured (Finished value oracle)
+             produce kind:body,…   bodies this side sends (ch1 ch2 sh hrr nst ee cert ske cr shd cv cke np)
+             input   items delivered to this side: ccs | type:body
+    split bytes                                       -> t:body,… (decodeAll)
+    trunc ch binders(b1,b2)                           -> psk_truncate
+    hrr   ch1 ch2 groups selected cookie              -> ok | err:<why>      (hello: v;random;sid;suites;comp;typ:data,…)
+-/
+open Tls Tls.Transcript
+
+def parseVer (a b : String) : Option Version := do some (← a.toNat?, ← b.toNat?)
+
+def parseVerList (s : String) : Option (List Version) :=
+  if s == "-" then some [] else
+  (s.splitOn ",").mapM fun x =>
+    match x.splitOn "." with
+    | [a, b] => parseVer a b
+    | _ => none
+
+def parseNatList (s : String) : Option (List Nat) :=
+  if s == "-" then some [] else (s.splitOn ",").mapM (·.toNat?)
+
+def parseFlow : String → Option Flow
+  | "full12" => some .full12 | "resumeId12" => some .resumeId12
+  | "resumeTicket12" => some .resumeTicket12 | "full13" => some .full13
+  | "hrr13" => some .hrr13 | "psk13" => some .psk13 | "pskHrr13" => some .pskHrr13
+  | _ => none
+
+def parseOpts (s : String) : Option Opts :=
+  match s.toList with
+  | [a, b, c, d, e, f, g] =>
+    let bit (c : Char) : Option Bool := if c == '1' then some true else if c == '0' then some false else none
+    do some { serverCert := ← bit a, ske := ← bit b, certReq := ← bit c, clientCert := ← bit d,
+              nst := ← bit e, npn := ← bit f, compress := ← bit g }
+  | _ => none
+
+def sideName : Side → String
+  | .client => "client" | .server => "server"
+
+def parseSide : String → Option Side
+  | "client" => some .client | "server" => some .server | _ => none
+
+def evName : Ev → String
+  | .msg s k => (if s == .client then "C:" else "S:") ++ toString k.htype.toNat
+  | .ccs s => if s == .client then "ccsC" else "ccsS"
+  | .fin s => if s == .client then "finC" else "finS"
+  | .restart => "restart"
+
+def verdictName : Verdict → String
+  | .proceed => "proceed"
+  | .abort .illegalParameter => "abort:illegal_parameter"
+  | .abort .inappropriateFallback => "abort:inappropriate_fallback"
+  | .abort .protocolVersion => "abort:protocol_version"
+
+def abortName : Abort → String
+  | .noInput => "no_input" | .unexpectedMessage => "unexpected_message" | .rejected => "rejected"
+  | .badFinished => "bad_finished" | .tooLong => "too_long"
+
+def parsePairs (s : String) : Option (List (String × Bytes)) :=
+  if s == "-" then some [] else
+  (s.splitOn ",").mapM fun x =>
+    match x.splitOn ":" with
+    | [a, b] => do some (a, ← ofHex b)
+    | _ => none
+
+def parseHTable (s : String) : Option (List (Bytes × Bytes)) :=
+  if s == "-" then some [] else
+  (s.splitOn ";").mapM fun x =>
+    match x.splitOn ":" with
+    | [a, b] => do some (← ofHex a, ← ofHex b)
+    | _ => none
+
+def parseInput (s : String) : Option (List Wire) :=
+  if s == "-" then some [] else
+  (s.splitOn ",").mapM fun x =>
+    if x == "ccs" then some Wire.ccs else
+    match x.splitOn ":" with
+    | [a, b] => do some (Wire.hs ⟨UInt8.ofNat (← a.toNat?), ← ofHex b⟩)
+    | _ => none
+
+def lookupBody (tbl : List (String × Bytes)) (k : String) : Bytes :=
+  match tbl.find? (·.1 == k) with
+  | some (_, b) => b
+  | none => [0xde, 0xad]      -- a body the implementation never sent: the comparison will fail
+
+def kindKey (k : Kind) (tr : List Msg) : String :=
+  match k with
+  | .clientHello => if tr.isEmpty then "ch1" else "ch2"
+  | .serverHello => "sh" | .helloRetryRequest => "hrr" | .newSessionTicket => "nst"
+  | .encryptedExtensions => "ee" | .certificate => "cert" | .serverKeyExchange => "ske"
+  | .certificateRequest => "cr" | .serverHelloDone => "shd" | .certificateVerify => "cv"
+  | .clientKeyExchange => "cke" | .nextProtocol => "np" | .finished => "fin" | .messageHash => "mh"
+  | .compressedCertificate => "cert"
+
+def parseHello (s : String) : Option Hello :=
+  match s.splitOn ";" with
+  | [v, random, sid, suites, comp, exts] => do
+    let v ← match v.splitOn "." with
+      | [a, b] => parseVer a b
+      | _ => none
+    let exts ← if exts == "-" then some [] else
+      (exts.splitOn ",").mapM fun x =>
+        match x.splitOn ":" with
+        | [t, d] => do some ({ typ := ← t.toNat?, data := ← ofHex d } : Ext)
+        | _ => none
+    some { version := v, random := ← ofHex random, sessionId := ← ofHex sid,
+           suites := ← parseNatList suites, compression := ← parseNatList comp, exts := exts }
+  | _ => none
+
+def hrrErrName : HrrErr → String
+  | .missingKeyShare => "missing_key_share" | .multipleShares => "multiple_shares"
+  | .wrongGroup => "wrong_group" | .malformedCookie => "malformed_cookie"
+  | .missingCookie => "missing_cookie" | .pskNotLast => "psk_not_last" | .mismatch => "mismatch"
+  | .indexError => "index_error"
+
+def natsOut (l : List Nat) : String := if l.isEmpty then "-" else ",".intercalate (l.map toString)
+
+def handle : List String → Option String
+  | ["tail", sa, sb, va, vb, rnd] => do
+    some (hexOut (serverRandomTail (← parseVer sa sb) (← parseVer va vb) (← ofHex rnd)))
+  | ["sent", ca, cb, va, vb, tail] => do
+    some (verdictName (clientChecksSentinel (← parseVer ca cb) (← parseVer va vb) (← ofHex tail)))
+  | ["selver", na, nb, sa, sb, ca, cb, svs, ext] => do
+    let ext ← if ext == "none" then some none else (parseVerList ext).map some
+    match serverSelectVersion (← parseVerList svs) (← parseVer na nb) (← parseVer sa sb) (← parseVer ca cb) ext with
+    | .ok v => some s!"ok {v.1} {v.2}"
+    | .error _ => some "err:protocol_version"
+  | ["scsv", sa, sb, va, vb, suites] => do
+    some (verdictName (serverChecksScsv (← parseVer sa sb) (← parseVer va vb) (← parseNatList suites)))
+  | ["wire", suites, flag] => do
+    some (natsOut (clientWireSuites (← parseNatList suites) (flag == "1")))
+  | ["offer", ca, cb, cvs] => do
+    let (v, ext) := clientOffer (← parseVer ca cb) (← parseVerList cvs)
+    let e := match ext with
+      | none => "none"
+      | some l => if l.isEmpty then "-" else ",".intercalate (l.map fun (w : Version) => s!"{w.1}.{w.2}")
+    some s!"{v.1} {v.2} {e}"
+  | ["realver", ca, cb, ext] => do
+    let ext ← if ext == "none" then some none else (parseVerList ext).map some
+    let v := clientHelloRealVersion (← parseVer ca cb) ext
+    some s!"{v.1} {v.2}"
+  | ["script", f, o] => do
+    some (" ".intercalate ((flowScript (← parseFlow f) (← parseOpts o)).map evName))
+  | ["shape", f, o] => do
+    some (natsOut ((shapeOf (flowScript (← parseFlow f) (← parseOpts o)) []).map (·.toNat)))
+  | ["detector", f, o, i] => do
+    let l := detectors (← parseFlow f) (← parseOpts o) (← i.toNat?)
+    some (if l.isEmpty then "none" else ",".intercalate (l.map sideName))
+  | ["run", side, f, o, htable, cfin, sfin, produce, input] => do
+    let side ← parseSide side
+    let ht ← parseHTable htable
+    let cfin ← ofHex cfin
+    let sfin ← ofHex sfin
+    let tbl ← parsePairs produce
+    let P : Prims :=
+      { inner := fun _ _ t => t,
+        outer := fun _ s _ => if s == .client then cfin else sfin,
+        H := fun x => match ht.find? (·.1 == x) with
+          | some (_, d) => d
+          | none => [] }
+    let B : Beh :=
+      { produce := fun k tr => lookupBody tbl (kindKey k tr), secret := fun _ => [],
+        check := fun _ _ _ => true }
+    match runSide P side B (flowScript (← parseFlow f) (← parseOpts o)) (← parseInput input) with
+    | .ok e => some s!"ok {hexOut (encAll e.tr)} {hexOut (encAll e.pre)}"
+    | .error a => some ("abort:" ++ abortName a)
+  | ["split", b] => do
+    let b ← ofHex b
+    match decodeAll (b.length + 1) b with
+    | some ms => some (if ms.isEmpty then "-" else
+        ",".intercalate (ms.map fun m => s!"{m.htype.toNat}:{hexOut m.body}"))
+    | none => some "err"
+  | ["trunc", ch, binders] => do
+    let bs ← if binders == "-" then some [] else (binders.splitOn ",").mapM ofHex
+    some (hexOut (pskTruncate (← ofHex ch) bs))
+  | ["hrr", ch1, ch2, groups, selected, cookie] => do
+    match hrrConsistent (← parseHello ch1) (← parseHello ch2) (← parseNatList groups)
+        (← selected.toNat?) (← ofHex cookie) with
+    | .ok _ => some "ok"
+    | .error e => some ("err:" ++ hrrErrName e)
+  | _ => none
+
+def main : IO Unit := protoMain handle
